@@ -39,7 +39,7 @@ func runC12(c *Ctx) {
 }
 
 func c12ExactlyOne(c *Ctx, add *ssa.Function) {
-	withInline(func() { c12ExactlyOneIn(c, add) })
+	withInline(func() { c12ExactlyOneIn(c, add) }, add)
 }
 
 func c12ExactlyOneIn(c *Ctx, add *ssa.Function) {
@@ -694,6 +694,10 @@ func c12Unmarshal(c *Ctx) {
 }
 
 func c12ReportPlumbing(c *Ctx) {
+	withInline(func() { c12ReportPlumbingIn(c) }, c.P.Func("", "report"))
+}
+
+func c12ReportPlumbingIn(c *Ctx) {
 	const rule = "in the report command the -buckets text and the hist[...] suffix both reach Buckets.UnmarshalText of the histogram that receives Add and is rendered"
 	rep := c.P.Func("", "report")
 	key := "report-plumbing:main.report:buckets"
@@ -701,7 +705,7 @@ func c12ReportPlumbing(c *Ctx) {
 		c.Undecided(key, rule, "main.report not found")
 		return
 	}
-	um := callsNamed(rep, "(*lib.Buckets).UnmarshalText")
+	um := callsNamedI(rep, "(*lib.Buckets).UnmarshalText")
 	if len(um) < 2 {
 		c.Fail(key, rule, fmt.Sprintf("%d UnmarshalText calls in report, expected one for json+buckets and one for hist", len(um)), c.fnAt(rep))
 		return
@@ -717,8 +721,13 @@ func c12ReportPlumbing(c *Ctx) {
 			continue
 		}
 		argOK := flowsFrom(call.Call.Args[1], func(v ssa.Value) bool {
+			// a string parameter of the report command itself (the -buckets text or the -type text)
 			p, isP := v.(*ssa.Parameter)
-			return isP && (p.Name() == "bucketsStr" || p.Name() == "typ")
+			if !isP || p.Parent() != rep {
+				return false
+			}
+			b, isB := p.Type().Underlying().(*types.Basic)
+			return isB && b.Kind() == types.String
 		})
 		if !argOK {
 			ok, why = false, "the parsed text is not the command's bucket specification"
@@ -729,13 +738,13 @@ func c12ReportPlumbing(c *Ctx) {
 		}
 	}
 	// hist: the histogram handed to NewHistogramReporter is the one used as report
-	hr := callsNamed(rep, "lib.NewHistogramReporter")
+	hr := callsNamedI(rep, "lib.NewHistogramReporter")
 	if len(hr) != 1 {
 		ok, why = false, "NewHistogramReporter is not called exactly once"
 	} else {
 		hv := hr[0].(*ssa.Call).Call.Args[0]
 		same := false
-		eachInstr(rep, func(i ssa.Instruction) {
+		eachInstrI(rep, func(i ssa.Instruction) {
 			if mi, isMI := i.(*ssa.MakeInterface); isMI && mi.X == hv && types.Identical(mi.Type(), c.P.Named("lib", "Report")) {
 				same = true
 			}
@@ -755,9 +764,9 @@ func c12ReportPlumbing(c *Ctx) {
 		}
 	}
 	// the hist[...] suffix is sliced out of the report type only when it is long enough
-	eachInstr(rep, func(i ssa.Instruction) {
-		if sl, isSl := i.(*ssa.Slice); isSl && sl.X == ssa.Value(rep.Params[1]) {
-			if _, why2, ok2, isSite := dischargeSlice(rep, sl); isSite && !ok2 {
+	eachInstrI(rep, func(i ssa.Instruction) {
+		if sl, isSl := i.(*ssa.Slice); isSl && rootVal(sl.X) == ssa.Value(rep.Params[1]) {
+			if _, why2, ok2, isSite := dischargeSlice(sl.Parent(), sl); isSite && !ok2 {
 				ok, why = false, "the report type is sliced without a length guard: "+why2
 			}
 		}
